@@ -486,7 +486,7 @@ def mpi(rep, prog, B=None):
     cases.append(('bit count 1, octet ff', rd(1, b'\xff'), ok((0xff, tail))))
     B.sweep('C09.3', 'MPI.__new__', new.where, 'MPI reader', 'an MPI is a two-octet bit count followed by ceil(bits / 8) octets, both consumed (RFC 4880 3.2)', cases)
 
-    values = [1, 2, 127, 128, 255, 256, 257, 511, 65535, 65536, (1 << 64) - 1, 1 << 64, magnitude(1023), magnitude(2048), magnitude(2049), (1 << 4096) - 1]
+    values = [0, 1, 2, 127, 128, 255, 256, 257, 511, 65535, 65536, (1 << 64) - 1, 1 << 64, magnitude(1023), magnitude(2048), magnitude(2049), (1 << 4096) - 1]
 
     def mk(v):
         return E.new(M, v)          # through MPI.__new__: whatever it stores on the new object is there
@@ -525,7 +525,7 @@ def mpi(rep, prog, B=None):
         v = int.from_bytes(mag, 'big')
         canon = v.bit_length().to_bytes(2, 'big') + v.to_bytes(octets_needed(v), 'big')
         return ok((canon, octets_needed(v), octets_needed(v) + 2, v, tail, len(canon)))
-    pad = [(9, b'\x00\xff'), (16, b'\x00\xff'), (16, b'\x00\x01'), (8, b'\x7f'), (8, b'\x01'), (24, b'\x00\x00\xff'), (24, b'\x00\x80\x00'),
+    pad = [(0, b''), (8, b'\x00'), (9, b'\x00\xff'), (16, b'\x00\xff'), (16, b'\x00\x01'), (8, b'\x7f'), (8, b'\x01'), (24, b'\x00\x00\xff'), (24, b'\x00\x80\x00'),
            (32, b'\x00\x00\x01\x00'), (64, b'\x00' * 7 + b'\x01'), (2048, b'\x00' * 8 + b'\x5a' * 248), (2041, b'\x00' + b'\xa5' * 255),
            (4096, b'\x00' * 256 + b'\xff' * 256), (16, b'\xff\xff'), (2048, b'\x80' + b'\x00' * 255)]
     B.sweep('C09.3', 'MPI', wr.where, 'MPI parsed then written', 'the bit count written is the bit length of the value and the magnitude takes ceil(bits / 8) octets, '
